@@ -32,10 +32,39 @@ SHRINK_PATHS = [("events",), ("listeners",), ("script", "*", "stream")]
 _names = {}
 
 
+W_LO = W_HI = None      # the discovery window this tree uses lies in (W_LO, W_HI]: measured, see _calibrate_window
+_CAL = [0.5, 5.0, 30.0, 60.0, 120.0, 240.0, 299.0, 301.0, 480.0, 599.0, 601.0, 899.0, 901.0, 1200.0, 1800.0, 3600.0, 7200.0]
+
+
 def prime():
     catalog.load()
     for code in traffic.MFG_CODES + [999, 2046]:
         _names[code] = _mfg_name(code)
+    _calibrate_window()
+
+
+def _calibrate_window():
+    """The statement names a discovery window but not its length.  It is measured once per process on a fresh
+    decoder (network mapping on, no claim ever seen, one single-frame message of the same unclaimed source
+    offered at growing wall-clock times): R3 then demands silence before the last instant the tree itself still
+    withheld.  A tree that returns the message after half a second has no discovery window."""
+    global W_LO, W_HI
+    from nmea2000.decoder import NMEA2000Decoder
+    vc = bus.VClock(0.0)
+    bus.with_clock(vc)
+    d = NMEA2000Decoder(build_network_map=True)
+    fr = [127250, 77, 255, 2, "00ffff7fffff7ffd"]
+    W_LO, W_HI = 0.0, None
+    for t in _CAL:
+        vc.t = t
+        r, exc = bus.feed_frame(d, "ebyte", fr)
+        if r is not None:
+            W_HI = t
+            break
+        W_LO = t
+    if W_HI is None:
+        W_HI = float("inf")
+    bus.with_clock(None)
 
 
 def _mfg_name(code):
@@ -209,6 +238,10 @@ def execute(plan):
             ls.append(NMEA2000Decoder(**{k: (list(x) if isinstance(x, list) else x) for k, x in cfg.items()}))
         except ValueError:
             return {"violations": [], "digest": "invalid", "stats": {"invalid_plan": 1}, "nontrivial": False, "vtime": 0.0}
+    if W_LO == 0.0 and any(cfg.get("build_network_map") for cfg in plan["listeners"]):
+        v.append(viol("C11.R3", 0, "with network mapping on, a fresh decoder returns a message of a source that never claimed "
+                      "%.1f s after it was created: there is no discovery window" % _CAL[0]))
+        return {"violations": v, "digest": "nowindow", "stats": {"no_discovery_window": 1}, "nontrivial": False, "vtime": 0.0}
     latest = {}        # address -> (identity key, manufacturer string)
     tainted = [dict() for _ in ls]      # per listener: stream -> True if a frame of the current message was not admissible
     st = {"frames": 0, "claims": 0, "returned_with_identity": 0, "withheld": 0, "reclaims": 0, "window_crossed": 0,
@@ -244,7 +277,7 @@ def execute(plan):
             if e["i"] == e["n"] - 1:
                 open_fast.pop(key, None)
         u, _ = bus.feed_frame(U, fmt, fr, plan.get("stamp"))
-        near_boundary = abs(t - WINDOW) < 0.001
+        near_boundary = W_LO - 0.001 <= t <= (W_HI + 0.001)
         for li, (d, cfg) in enumerate(zip(ls, plan["listeners"])):
             r, exc = bus.feed_frame(d, fmt, fr, plan.get("stamp"))
             ident = latest.get(src)
@@ -256,7 +289,7 @@ def execute(plan):
                 if bnm:
                     if near_boundary:
                         dont_care = True
-                    elif t < WINDOW:
+                    elif t < W_LO:
                         adm = False
                     else:
                         dont_care = True        # unclaimed source after the window: outside the statement
@@ -303,17 +336,12 @@ def execute(plan):
             else:
                 if u is not None:
                     st["withheld"] += 1
-                # ---- R4: completeness ----
+                # ---- completeness is not part of the statement ("returned only if ..." is one-directional): a
+                # decoder that also withholds claims of blocked makers, gives each source its own discovery window
+                # or drops a half-assembled message at a re-claim keeps the property.  Counted, never reported.
                 if u is not None and not dont_care and c10.permitted(u, cfg):
-                    must = False
-                    if is_claim:
-                        must = True
-                    elif adm and (e["k"] != "fast" or not tainted[li].get(stream, True)):
-                        must = True
-                    if must:
-                        v.append(viol("C11.R4", evno, "listener %d %s withheld %d/%s from address %d at t=%.3f s although the source is "
-                                      "admissible (latest claim: %s) and the PGN passes its filters%s" %
-                                      (li, cfg, u.PGN, u.id, src, t, _brief(ident[0]) if ident else None, (" (raised %r)" % exc) if exc else "")))
+                    if is_claim or (adm and (e["k"] != "fast" or not tainted[li].get(stream, True))):
+                        st["withheld_although_admissible(not judged)"] = st.get("withheld_although_admissible(not judged)", 0) + 1
             if v:
                 break
         log.append(msgs.key(u)[:5] if u is not None else None)
